@@ -168,7 +168,8 @@ def join_formula(ctx, rule):
             ctx.fail(rule, "join-shape:%s" % b.id, b.where(), "join no longer builds its result as one struct literal (fail closed)")
             continue
         n += 1
-        d = dict(zip(e[4], e[3]))
+        # a join that delegates to its sibling (`self.to_shape().join(&other.to_shape())`) is read through the sibling
+        d = dict(zip(e[4], [U.unfold_struct_calls(ctx, x) for x in e[3]]))
         sl = S.strip_refs(d.get("slice"))
         ok_slice = sl[0] == "agg" and _lin_fields(sl[3][0]) == ({"arg1.slice.0": 1}, 0) and _lin_fields(sl[3][1]) == ({"arg2.slice.1": 1}, 0)
         ok_stem = _lin_fields(d.get("stem")) == ({"arg2.slice.0": 1, "arg1.slice.0": -1, "arg2.stem": 1}, 0)
